@@ -180,7 +180,7 @@ impl Property for C19 {
         // nested calls, repeated jumps (trace and call-stack bookkeeping are part of "any state")
         if t.below(4) == 0 {
             let n = 1 + t.below(6);
-            c.pre = (0..n).map(|_| t.pick(&['r', 'r', 'c', 'J', 'J', 'j'])).collect();
+            c.pre = (0..n).map(|_| t.pick(&['r', 'r', 'c', 'J', 'J', 'j', 'x'])).collect();
         }
         c
     }
@@ -197,6 +197,9 @@ impl Property for C19 {
             return CaseOut::discard("unencodable");
         }
         let d = self.eng().run(c, false);
+        if let Some(hf) = super::nat::harness_fault(&d) {
+            return hf;
+        }
         let code = if d.valid { format!("{:?}", d.ins.code()) } else { "INVALID".to_string() };
         let in_floor = d.valid && self.eng().floor.contains(&code);
         let mut h = Fnv::new();
@@ -245,7 +248,7 @@ impl Property for C19 {
     }
 
     fn rule(&self) -> String {
-        "cases: four byte-level layers in equal parts — mutated valid encodings of every candidate form, uniform 1–15 bytes, [prefixes][REX][any opcode][ModRM][SIB][tail], and the same with the opcode drawn from the opcodes of supported mnemonics — × biased register states × layouts (all arenas / code only / code+rw, instruction at or across the end of the code area, RSP at edges) × for 1/4 of the cases a prelude of 1–6 already executed ret/call/jmp steps (unmatched returns, nesting, collapsed jumps) after which registers and arenas are reset to the case's; non-trivial = bytes decode to a valid instruction; distinct by (Code, operand kinds, prefixes, outcome class, layout, bytes)".into()
+        "cases: four byte-level layers in equal parts — mutated valid encodings of every candidate form, uniform 1–15 bytes, [prefixes][REX][any opcode][ModRM][SIB][tail], and the same with the opcode drawn from the opcodes of supported mnemonics — × biased register states × layouts (all arenas / code only / code+rw, instruction at or across the end of the code area, RSP at edges) × for 1/4 of the cases a prelude of 1–6 already executed ret/call/jmp steps (unmatched returns, nesting, collapsed jumps) or of other bytes executed at the same address after which registers and arenas are reset to the case's; non-trivial = bytes decode to a valid instruction; distinct by (Code, operand kinds, prefixes, outcome class, layout, bytes)".into()
     }
     fn required_classes(&self, _tier: Tier) -> Vec<String> {
         vec!["implemented/Ok".into(), "implemented/Err".into(), "not-in-floor/Err".into(), "undecodable-or-truncated".into(), "after-unmatched-return".into()]
